@@ -237,7 +237,15 @@ def replay(data, verbose=False, want_info=False, tol=Fraction(1, 10 ** 7)):
         print('  compiled program accepts the point (exact check of rows/bounds/cones)')
         print('  realisation z* = %s (in the set)' % wz)
         print('  oracle row value (<=0 required): %.6g ; real expression call: %s' % (worst, real_val))
-    ok = worst > 1e-6 and (real_val is None or real_val > 1e-6)
+    # The meaning of the user's row is NumPy's (C05): the violation is established by the exact check of the point against the
+    # real compiled program plus the NumPy evaluation of the row at a realisation of the set.  RSOME's own __call__ is a
+    # cross-check only: when the expression algebra itself is broken (e.g. a wrong transpose) it agrees with the wrong
+    # program, which must not turn a genuine violation into a harness error.
+    if worst > 1e-6 and real_val is not None and not real_val > 1e-6:
+        info['note'] = 'RSOME evaluates its own expression object to %r at this point where NumPy semantics give %r' % (real_val, worst)
+        if verbose:
+            print('  ' + info['note'])
+    ok = worst > 1e-6
     return (ok, info) if want_info else ok
 
 
